@@ -183,6 +183,7 @@ func (*setextHeadingParser).Open
 func (*atxHeadingParser).Open
   requires text.rdOK(reader) && text.rdLive(reader) && offsetOK(reader)
   requires [C05_src] text.docSrc(reader)
+  ensures [line] lineKept(reader)
   loop 0 inv pos <= i && i <= len(line) && (forall k int {line[k]} :: (pos <= k && k < i) ==> line[k] == '#')
   loop 1 inv 0 <= start && start <= j && stop <= len(line) && closureOpen == -1 && closureClose == -1
   loop 2 inv j + 1 <= k && k <= stop
